@@ -27,9 +27,9 @@ CLAIMS = {
          "Model lexer tied to the Go lexer by correspondence (every token Loc, cross-read by an independent Python slicer). Partial: AST Locs and handler-composed ranges are covered by correspondence legs of C03/C05/C06/C19, not by this theorem.",
     design="5/C04", technique="Coq proof (induction over the scan with a position invariant; UTF-8/UTF-16 lemmas) + extracted-model correspondence on token ranges"),
  "C05": dict(
-    text="Executable Coq models of the scope tree, FindMinScope/FindLocVar/IsCorrectPosition, the text cut and the global tables, and the reference binder of Lua scoping (Spec/LuaScope.v); the full statement is stated (C05_define_local_full) and REFUTED for the unchanged code with one vm_compute witness per class (B1-B5, doc_end), guard non-vacuity example; model = code and model = reference outside the classes are decided by correspondence over every identifier cursor of generated programs (deviations must fall in a listed class whose predicate is extracted from Coq). "
-         "Partial: the guarded positive theorem (resolver = binder outside B1-B5 for all programs) is not yet proved; only its statement, the class predicates and the refutations are machine-checked.",
-    design="5/binder", technique="Coq model + reference binder, refutation theorems by vm_compute, class predicates extracted; differential correspondence through the real language server (all cursors)"),
+    text="Coq theorem C05_define_local_partial, for ALL programs of the fragment: with the Laid2 layout (Locs are token spans incl. empty if-branches; no function in a numeric-for step = class B5) and no re-pointing assignment (no_repoint = class B4), go-to-definition at EVERY cursor column of every occurrence that Lua binds to a local and that carries no class tag (B1-B3, per occurrence) returns exactly Lua's declaration; intermediate theorems: the scope tree of the analysis is the syntactic skeleton (C05_scope_tree_is_skeleton), FindMinScope's chain contains every binder-visible declaration (C05_chain_covers_binder_env). "
+         "The full statement and the originally planned guard are refuted (6 class witnesses from source bytes; Laid alone is too weak for hand-built ASTs), non-vacuity examples (33 and 43 occurrences; the evidence reports which share of generated programs satisfies the guards). Model = code and the global part are decided by correspondence over every identifier cursor of generated workspaces through the real server. Partial: B4/B5 are excluded program-wide, globals by correspondence.",
+    design="5/binder, 11", technique="Coq proof (skeleton of the scope tree, position keys, FindMinScope scan, main induction over the traversal) + refutation witnesses + correspondence through the real language server (all cursors)"),
  "C06": dict(
     text="Coq theorems for every workspace: every location find-references returns is the target's declaration or a visited occurrence spelled with the queried name (C06_references_shape); full statement (answer = occurrences of the same variable per the reference binder) stated over file bytes and refuted with a witness per class (B1-B5, doc_end, undefined/split/mixed-level global, same position other file); guard non-vacuity example. Correspondence through the real server at every identifier cursor, deviations must fall in a listed class.",
     design="5/binder", technique="Coq proof (shape theorem) + refutation witnesses by vm_compute + extracted model/reference correspondence through the real server"),
@@ -58,8 +58,8 @@ CLAIMS = {
          "and of the comment map, attachment lookup and both clean-ups (C13_gap_entries: grouping of comment lines per gap; C13_comment_attach: lookup = spec under the boolean attach_guard; C13_cleanup*: exact characterisation), refutation for a block starting with an empty line; model tied to the code by differential correspondence on every run, incl. hover text (label + documentation) through the real server. Partial: whole-file attachment composes these by correspondence only; labels modelled for the forms of the quantifier.",
     design="5/C13", technique="Coq proof (induction over code points; finite byte sweeps by vm_compute lifted with forallb_forall) + extracted-model correspondence"),
  "C14": dict(
-    text="Coq theorem for every workspace and cursor: every completion label is a global/undefined name of the workspace or a variable of a scope that CONTAINS the cursor declared at or before it - never a later or non-enclosing local (C14_labels_only_visible); completeness is stated (C14_complete_full) and refuted in class B5 with a witness. Correspondence: completion labels of the real server at every prefix end of every identifier (unique-name programs decide; ordinary programs correspondence only).",
-    design="5/binder", technique="Coq proof (soundness of labels via the FindMinScope chain lemma) + refutation witness + correspondence through the real server"),
+    text="Coq theorems: (only those) for every workspace and cursor every completion label is a global/undefined name of the workspace or a variable of a scope that CONTAINS the cursor declared at or before it - never a later or non-enclosing local (C14_labels_only_visible); (every visible) for all fragment programs with the Laid2 layout and no re-pointing assignment, every local, parameter and loop variable the reference binder has in scope at an occurrence is among the local labels at every cursor column of it (C14_complete_locals_partial, model level); the full statement over file bytes is stated and refuted in class B5. Correspondence: completion labels of the real server at every prefix end of every identifier (unique-name programs decide; ordinary programs correspondence only).",
+    design="5/binder, 11", technique="Coq proof (label soundness via the FindMinScope chain lemma; completeness via the position-resolver induction) + refutation witness + correspondence through the real server"),
  "C15": dict(
     text="Coq theorems: the class traversal terminates and its member set equals the reflexive-transitive closure of parent/alias edges for every well-formed type map (C15_members_eq_closure, sound+complete, cycles and diamonds included), element/value type resolution is exact and terminating for the repaired code (C15_fixed_*); refutations (same-file shadowing, union order) listed. Correspondence: generated class graphs through completion/definition of the real server in a subprocess.",
     design="5/C15", technique="Coq proof (closure = traversal by induction with visited-set invariant; measure for termination) + extracted-model correspondence"),
